@@ -76,6 +76,10 @@ type Exec struct {
 	nameOverride string
 	chain        []*ssa.Function
 	chainPos     int
+	visited      map[*ssa.Range]Term // ghost: keys already delivered by a map iteration
+	forallVals   []Val               // the contract's universally quantified constants
+	curCC        *ssa.CallCommon     // the call being executed (frame by encapsulation)
+	curFn        *ssa.Function
 }
 
 type frame struct {
@@ -104,6 +108,7 @@ type Ret struct {
 	vals  []Val
 	st    *State
 	panicked bool
+	pos      string
 }
 
 func (x *Exec) addObl(name, kind, text string, props []string, part OblPart, advisory bool) {
@@ -588,6 +593,18 @@ func (x *Exec) loopHeader(fr *frame, h *ssa.BasicBlock, ordinal int, st *State, 
 		}
 	}
 	x.havocEffects(st, eff, fmt.Sprintf("%s_loop%d", fr.prefix, ordinal))
+	// the visited set of a map iteration driven by this loop is loop-variant too
+	for b := range body {
+		for _, ins := range b.Instrs {
+			if nx, ok := ins.(*ssa.Next); ok {
+				if rng, ok := nx.Iter.(*ssa.Range); ok {
+					if vis, ok := x.visited[rng]; ok {
+						x.visited[rng] = x.c.Fresh("visited", vis.Sort)
+					}
+				}
+			}
+		}
+	}
 	for _, ins := range h.Instrs {
 		phi, ok := ins.(*ssa.Phi)
 		if !ok {
